@@ -176,7 +176,7 @@ def species_atoms(species):
 
 
 def species_name(species):
-    return species if isinstance(species, str) else "custom"
+    return species if isinstance(species, str) else f"custom{len(species) - 1}"
 
 
 def relink_problems(out, geometry, staying, leaving, factor, species):
@@ -792,7 +792,17 @@ def run_mi_case(c, acc):
                 helper = MethodOfIncrementsHelper(log_file=path)
             else:
                 helper = MethodOfIncrementsHelper(full_result=full_result)
-            got = float(helper.mi_summation(copy.deepcopy(user)) if user is not None else helper.mi_summation())
+            user_arg = copy.deepcopy(user)
+            got = float(helper.mi_summation(user_arg) if user is not None else helper.mi_summation())
+            # the override dictionary belongs to the caller; a second summation (same helper, same dictionary) must agree
+            if user_arg != user:
+                acc.violation(f"MI.mi_summation/argument-modified/{tag}", c, {"before": user, "after": user_arg},
+                              group="MI.mi_summation/argument-modified")
+            acc.ev()
+            again = float(helper.mi_summation(user_arg) if user is not None else helper.mi_summation())
+            if not abs(again - got) <= TOL_MI:
+                acc.violation(f"MI.mi_summation/second-call-differs/{tag}", c, {"first": got, "second": again},
+                              group="MI.mi_summation/second-call-differs")
     except Exception as e:
         acc.violation(f"MI.mi_summation/exception/{tag}:{sig_exc(e)}", c, {"err": repr(e)[:300]}, group="MI.mi_summation/exception")
         return
@@ -835,7 +845,9 @@ def mi_cases_of_shard(sh):
 # ---------------------------------------------------------------------------------------------------------------------
 # shards
 
-RELINK_SPECIES = ["H", "F", "CH3", "CF3", "NH2", CUSTOM_GROUP]
+CUSTOM_GROUP2 = [["X", [0., 0., 0.]], ["O", [0., 0., 1.0]], ["H", [0.8, 0., 1.4]]]          # ghost + exactly two atoms
+CUSTOM_GROUP3 = [["X", [0.2, -0.1, 0.3]], ["C", [0.2, -0.1, 1.4]], ["N", [0.2, -0.1, 2.55]], ["H", [1.1, 0.3, 1.0]]]  # ghost off the origin
+RELINK_SPECIES = ["H", "F", "CH3", "CF3", "NH2", CUSTOM_GROUP, CUSTOM_GROUP2, CUSTOM_GROUP3]
 
 
 def relink_factors(seed):
